@@ -863,7 +863,23 @@ func (fx *FuncExec) execInstr(fn *ssa.Function, st *State, reach *Term, in ssa.I
 		return reach
 	case *ssa.Next:
 		fx.note("range over map/string yields arbitrary elements")
-		st.vals[ins] = fx.freshValueR("next", ins.Type(), st, reach)
+		nv := fx.freshValueR("next", ins.Type(), st, reach)
+		st.vals[ins] = nv
+		// (ok, key, value): maps of pointers in this package never store nil, and the declared type invariant
+		// holds for what they store (trusted, as for lookups)
+		if tv, ok := nv.(VTuple); ok && len(tv.vals) == 3 {
+			if okv, ok := tv.vals[0].(VBool); ok {
+				if p, ok := tv.vals[2].(VPtr); ok {
+					fx.addFact(reach, ts.Implies(okv.t, ts.Ne(p.ref, ts.Int(0))))
+					for _, c := range fx.eng.cs.Types[typeKey(p.typ)] {
+						env := &cenv{fx: fx, fn: fn, st: st, old: st, binds: map[string]Value{"self": p}, reach: reach, params: map[string]Value{}}
+						if t, err := fx.evalClause(c, env); err == nil {
+							fx.addFact(reach, ts.Implies(okv.t, t))
+						}
+					}
+				}
+			}
+		}
 		return reach
 	case *ssa.SliceToArrayPointer, *ssa.MultiConvert:
 		v := in.(ssa.Value)
